@@ -260,7 +260,7 @@ func TestJudge(t *testing.T) {
 	b.frontier(2, 1200)
 	b.frontier(1, 1100)
 	lf := &RunLog{Apps: b.apps, Reqs: b.reqs, NReqs: b.seq, FloorDone: -1, FloorCut: -1, ModeAtCut: pm}
-	if fs, _ := e.Judge(lf); sigs(fs) != "frontier|passes-uncommitted-unit|mode=pipeline ; monotone|stored-frontier-decreased|mode=pipeline" {
+	if fs, _ := e.Judge(lf); sigs(fs) != "frontier|passes-uncommitted-unit|mode=pipeline ; frontier|seq-offset-mismatch|mode=pipeline ; monotone|stored-frontier-decreased|mode=pipeline" {
 		t.Fatalf("got %q", sigs(fs))
 	}
 	// a journal-mode instance writing latest records; a migration seed is no stray record
